@@ -214,7 +214,7 @@ class Exec:
         self.prune = z3.Solver()
         # branch pruning only needs refutations: E-matching without MBQI answers them in milliseconds; `unknown` = explore
         self.prune.set('auto_config', False); self.prune.set('smt.mbqi', False)
-        self.prune.set('timeout', int(__import__('os').environ.get('VERIF_PRUNE_MS', '3000')))
+        self.prune.set('timeout', int(__import__('os').environ.get('VERIF_PRUNE_MS', '1500')))
         for hh in hyps: self.prune.add(hh)
         self.pruned = 0
         self.out_cands = []          # parallel to outs: the witness candidates in force at the end of each path
